@@ -14,34 +14,44 @@
    found in eval_context AT THAT MOMENT under '<name>_<arity>', else '<name>_n', unless the name is
    reserved; Answer.match = unify_arrays of the goal arguments with a copy of the fact that has new
    variables; a compiled function tries its clauses in order; dereferencing goes through the whole
-   shared heap (Unify.unify on  own bindings ++ everything else that is bound).
+   shared heap (Unify.unify on  own bindings ++ everything else that is bound; written unify_arrays2 / den2,
+   which are proved equal to Unify.unify_arrays / Term.den in Engine/Deref.v and evaluate faster).
    What is abstracted: a compiled clause is (head arguments, list of goals) - conjunctions of calls
    only, head unification done with unify_arrays on a renamed copy (the compiler's aliasing of head
    variables is C01's business); the atoms a clause body creates while running are not entered into
    the atom table (not observable: atom() is idempotent until clear); a new cell gets the name
-   (owner tag of the query, counter) so that allocation does not depend on the schedule. *)
+   (engine, number of the query, counter) so that allocation does not depend on the schedule. *)
 From Coq Require Import String.
 From Coq Require Import List Arith Bool Lia ZArith NArith Cantor.
 Import ListNotations.
-From YP Require Import Base.Str Term.Term Term.Show Unify.Unify.
+From YP Require Import Base.Str Term.Term Term.Show Unify.Unify Engine.Deref.
 Local Open Scope string_scope.
 Local Open Scope list_scope.
 
 (* ---------------------------------------------------------------- cells *)
-(* cell (owner tag, index).  Owner tags: user variables of engine e: utag e; cells allocated by the
-   c-th query/update of engine e: ctag e c. *)
-Definition cell (o k : nat) : nat := Cantor.to_nat (o, k).
-Definition owner (v : nat) : nat := fst (Cantor.of_nat v).
-Definition utag (e : nat) : nat := Cantor.to_nat (0, e).
-Definition ctag (e c : nat) : nat := Cantor.to_nat (S c, e).
-Definition eng_of (v : nat) : nat := snd (Cantor.of_nat (owner v)).
+(* In a world of n engines the cell number  m * n + e  belongs to engine e; m is the Cantor code of
+   (0, u) for the u-th variable the user of that engine created, and of (S c, k) for the k-th
+   variable allocated by the c-th query/update the engine started. *)
+Definition cell (n e m : nat) : nat := m * n + e.
+Definition eng_of (n v : nat) : nat := v mod n.
+Definition owner (n v : nat) : nat := fst (Cantor.of_nat (v / n)).
+Definition ucell (n e u : nat) : nat := cell n e (Cantor.to_nat (0, u)).
+Definition ccell (n e c k : nat) : nat := cell n e (Cantor.to_nat (S c, k)).
 
-Lemma owner_cell o k : owner (cell o k) = o.
-Proof. unfold owner, cell. rewrite Cantor.cancel_of_to. reflexivity. Qed.
-Lemma eng_of_ucell e k : eng_of (cell (utag e) k) = e.
-Proof. unfold eng_of. rewrite owner_cell. unfold utag. rewrite Cantor.cancel_of_to. reflexivity. Qed.
-Lemma eng_of_ccell e c k : eng_of (cell (ctag e c) k) = e.
-Proof. unfold eng_of. rewrite owner_cell. unfold ctag. rewrite Cantor.cancel_of_to. reflexivity. Qed.
+Lemma eng_of_cell n e m : e < n -> eng_of n (cell n e m) = e.
+Proof.
+  intros H. unfold eng_of, cell. rewrite Nat.add_comm, Nat.mod_add by lia. apply Nat.mod_small; exact H.
+Qed.
+Lemma owner_ucell n e u : e < n -> owner n (ucell n e u) = 0.
+Proof.
+  intros H. unfold owner, ucell, cell. rewrite Nat.div_add_l by lia.
+  rewrite (Nat.div_small e n H), Nat.add_0_r, Cantor.cancel_of_to. reflexivity.
+Qed.
+Lemma owner_ccell n e c k : e < n -> owner n (ccell n e c k) = S c.
+Proof.
+  intros H. unfold owner, ccell, cell. rewrite Nat.div_add_l by lia.
+  rewrite (Nat.div_small e n H), Nat.add_0_r, Cantor.cancel_of_to. reflexivity.
+Qed.
 
 (* ---------------------------------------------------------------- terms: renaming, canonical copies *)
 Fixpoint rn (f : nat -> nat) (t : term) : term :=
@@ -154,22 +164,21 @@ Definition builtin_ctx : list (str * list defn) :=
     (key_fixed (of_string "retractall") 1, [DOther]) ].
 
 (* ---------------------------------------------------------------- cursors = suspended query generators *)
-Inductive frame :=
-| FGoals (tr : store) (gs : list goal)                                     (* continue with these goals *)
-| FFact (tr : store) (args : list term) (f : list term) (rest : list goal) (* next clause of a fact snapshot *)
-| FFun (tr : store) (nm : str) (args : list term) (rest : list goal)      (* facts exhausted: look the function up NOW *)
-| FClause (tr : store) (args : list term) (cl : clause) (rest : list goal). (* next clause of a called function *)
+Inductive frame :=      (* tr: the bindings this query has made on the path to the frame; cnt: cells in use there *)
+| FGoals (tr : store) (cnt : nat) (gs : list goal)                                     (* continue with these goals *)
+| FFact (tr : store) (cnt : nat) (args : list term) (f : list term) (rest : list goal) (* next clause of a fact snapshot *)
+| FFun (tr : store) (cnt : nat) (nm : str) (args : list term) (rest : list goal)      (* facts exhausted: look the function up NOW *)
+| FClause (tr : store) (cnt : nat) (args : list term) (cl : clause) (rest : list goal). (* next clause of a called function *)
 
 Record cursor := mkcur {
-  cown : nat;             (* owner tag of the cells it allocates *)
+  cown : nat;             (* number of the query: names the cells it allocates *)
   cargs : list term;      (* the argument terms of the query: the answer is read from them *)
   cfr : list frame;       (* what is still to be tried; [] = finished or closed *)
-  ctrail : store;         (* the bindings of the current answer (they are in the heap) *)
-  ccnt : nat }.           (* allocation counter *)
+  ctrail : store }.       (* the bindings of the current answer (they are in the heap) *)
 
 Inductive sres :=
-| SAns (tr : store) (fr : list frame) (cnt : nat) (names : list str)
-| SDone (cnt : nat) (names : list str)
+| SAns (tr : store) (fr : list frame) (names : list str)
+| SDone (names : list str)
 | SErr (code : nat).       (* 0 search fuel, 1 unify fuel, 2 cyclic (unspecified), 3 builtin outside the model *)
 
 Definition UF : nat := 300.     (* fuel handed to Unify.unify_arrays *)
@@ -182,40 +191,42 @@ Definition clauses_of (ds : list defn) : option (list clause) :=
                            | DClauses c, Some r => Some (c ++ r)
                            | _, _ => None end) (Some []) ds.
 
-(* resume the generator: depth first, until the next yield *)
-Fixpoint search (fuel : nat) (d : db) (h0 : store) (ow : nat) (fr : list frame) (cnt : nat) (names : list str) : sres :=
+(* resume the generator: depth first, until the next yield.  Cells allocated on a branch that has been
+   left are unreachable (their Variable objects are gone), so the counter is per frame: the k-th cell
+   in use on the current path has index k. *)
+Fixpoint search (fuel : nat) (d : db) (h0 : store) (fresh : nat -> nat) (fr : list frame) (names : list str) : sres :=
   match fuel with
   | O => SErr 0
   | S fuel =>
     match fr with
-    | [] => SDone cnt names
-    | FGoals tr [] :: r => SAns tr r cnt names
-    | FGoals tr ((nm, args) :: gs) :: r =>
-        search fuel d h0 ow
-               (map (fun f => FFact tr args f gs) (find_facts d nm (length args)) ++ FFun tr nm args gs :: r)
-               cnt (nm :: names)
-    | FFact tr args f gs :: r =>
-        let f' := map (rn (fun i => cell ow (cnt + i))) f in
-        match unify_arrays UF (tr ++ h0) args f' with
-        | UOk s' => search fuel d h0 ow (FGoals (strip s' h0) gs :: r) (cnt + lmax f) names
-        | UFail => search fuel d h0 ow r (cnt + lmax f) names
+    | [] => SDone names
+    | FGoals tr cnt [] :: r => SAns tr r names
+    | FGoals tr cnt ((nm, args) :: gs) :: r =>
+        search fuel d h0 fresh
+               (map (fun f => FFact tr cnt args f gs) (find_facts d nm (length args)) ++ FFun tr cnt nm args gs :: r)
+               (nm :: names)
+    | FFact tr cnt args f gs :: r =>
+        let f' := map (rn (fun i => fresh (cnt + i))) f in
+        match unify_arrays2 UF (tr ++ h0) args f' with
+        | UOk s' => search fuel d h0 fresh (FGoals (strip s' h0) (cnt + lmax f) gs :: r) names
+        | UFail => search fuel d h0 fresh r names
         | UOof => SErr 1
         | UCyc => SErr 2
         end
-    | FFun tr nm args gs :: r =>
+    | FFun tr cnt nm args gs :: r =>
         match find_function d nm (length args) with
-        | None => search fuel d h0 ow r cnt names
+        | None => search fuel d h0 fresh r names
         | Some ds =>
             match clauses_of ds with
             | None => SErr 3
-            | Some cls => search fuel d h0 ow (map (fun c => FClause tr args c gs) cls ++ r) cnt names
+            | Some cls => search fuel d h0 fresh (map (fun c => FClause tr cnt args c gs) cls ++ r) names
             end
         end
-    | FClause tr args cl gs :: r =>
-        let cl' := rn_clause (fun i => cell ow (cnt + i)) cl in
-        match unify_arrays UF (tr ++ h0) args (fst cl') with
-        | UOk s' => search fuel d h0 ow (FGoals (strip s' h0) (snd cl' ++ gs) :: r) (cnt + clmax cl) names
-        | UFail => search fuel d h0 ow r (cnt + clmax cl) names
+    | FClause tr cnt args cl gs :: r =>
+        let cl' := rn_clause (fun i => fresh (cnt + i)) cl in
+        match unify_arrays2 UF (tr ++ h0) args (fst cl') with
+        | UOk s' => search fuel d h0 fresh (FGoals (strip s' h0) (cnt + clmax cl) (snd cl' ++ gs) :: r) names
+        | UFail => search fuel d h0 fresh r names
         | UOof => SErr 1
         | UCyc => SErr 2
         end
@@ -228,29 +239,29 @@ Definition unbind (tr h : store) : store :=
 
 Inductive cres := RAns (vals : list term) | RDone | RErr (code : nat).
 
-Definition cnext (fuel : nat) (d : db) (h : store) (c : cursor) : cursor * store * cres * list str :=
+Definition cnext (fuel : nat) (d : db) (fresh : nat -> nat) (h : store) (c : cursor) : cursor * store * cres * list str :=
   let h0 := unbind (ctrail c) h in
-  match search fuel d h0 (cown c) (cfr c) (ccnt c) [] with
-  | SAns tr fr cnt names =>
-      (mkcur (cown c) (cargs c) fr tr cnt, tr ++ h0, RAns (map (den (tr ++ h0)) (cargs c)), names)
-  | SDone cnt names => (mkcur (cown c) (cargs c) [] [] cnt, h0, RDone, names)
+  match search fuel d h0 fresh (cfr c) [] with
+  | SAns tr fr names =>
+      (mkcur (cown c) (cargs c) fr tr, tr ++ h0, RAns (map (den2 (tr ++ h0)) (cargs c)), names)
+  | SDone names => (mkcur (cown c) (cargs c) [] [], h0, RDone, names)
   | SErr k => (c, h, RErr k, [])
   end.
 
 Definition cclose (h : store) (c : cursor) : cursor * store :=
-  (mkcur (cown c) (cargs c) [] [] (ccnt c), unbind (ctrail c) h).
+  (mkcur (cown c) (cargs c) [] [], unbind (ctrail c) h).
 
 Definition cstart (ow : nat) (nm : str) (args : list term) : cursor :=
-  mkcur ow args [FGoals [] [(nm, args)]] [] 0.
+  mkcur ow args [FGoals [] 0 [(nm, args)]] [].
 
 (* run to exhaustion, collecting the answers *)
-Fixpoint cdrain (n fuel : nat) (d : db) (h : store) (c : cursor) (acc : list (list term)) (names : list str)
+Fixpoint cdrain (n fuel : nat) (d : db) (fresh : nat -> nat) (h : store) (c : cursor) (acc : list (list term)) (names : list str)
   : cursor * store * list (list term) * option nat * list str :=
   match n with
   | O => (c, h, rev acc, Some 0, names)
   | S n =>
-      match cnext fuel d h c with
-      | (c', h', RAns vals, nm) => cdrain n fuel d h' c' (vals :: acc) (nm ++ names)
+      match cnext fuel d fresh h c with
+      | (c', h', RAns vals, nm) => cdrain n fuel d fresh h' c' (vals :: acc) (nm ++ names)
       | (c', h', RDone, nm) => (c', h', rev acc, None, nm ++ names)
       | (c', h', RErr k, nm) => (c', h', rev acc, Some (S k), names)
       end
@@ -295,13 +306,12 @@ Inductive op :=
 | ODrain (q : nat).
 
 (* which facts match: Answer.match for each, bindings undone after each *)
-Fixpoint retract_list (h : store) (ow : nat) (args : list term) (fs : list (list term)) (cnt : nat)
+Fixpoint retract_list (h : store) (fresh : nat -> nat) (args : list term) (fs : list (list term))
   : option (list (list term)) :=
   match fs with
   | [] => Some []
   | f :: r =>
-      let f' := map (rn (fun i => cell ow (cnt + i))) f in
-      match unify_arrays UF h args f', retract_list h ow args r (cnt + lmax f) with
+      match unify_arrays2 UF h args (map (rn fresh) f), retract_list h fresh args r with
       | UOk _, Some r' => Some r'
       | UFail, Some r' => Some (f :: r')
       | _, _ => None
@@ -322,21 +332,21 @@ Definition res_obs (r : cres) : obs :=
   end.
 
 (* one operation of engine number eid on its own dictionaries and the shared heap *)
-Definition estep (fuel : nat) (eid : nat) (o : op) (e : engine) (h : store) : engine * store * obs :=
-  let u := rn (cell (utag eid)) in
+Definition estep (fuel : nat) (n eid : nat) (o : op) (e : engine) (h : store) : engine * store * obs :=
+  let u := rn (ucell n eid) in
   match o with
   | OAtom nm =>
       let a := intern nm (atoms e, natom e) in
       (with_atoms e a, h, otag "atom" [oopt onat (aget str_eqb nm (fst a))])
   | OAssert append nm args =>
-      let vals := canon (map (den h) (map u args)) in
+      let vals := canon (map (den2 h) (map u args)) in
       let old := find_facts (edb e) nm (length args) in
       let new := if append then old ++ [vals] else vals :: old in
       let d := mkdb (aset fkey_eqb (nm, length args) new (facts (edb e))) (ctx (edb e)) (reserved (edb e)) in
       (with_atoms (with_db e d) (intern nm (atoms e, natom e)), h, otag "ok" [])
   | ORetract nm args =>
       let old := find_facts (edb e) nm (length args) in
-      match retract_list h (ctag eid (nstart e)) (map u args) old 0 with
+      match retract_list h (ccell n eid (nstart e)) (map u args) old with
       | None => (e, h, otag "err" [onat 9])
       | Some new =>
           let d := match aget fkey_eqb (nm, length args) (facts (edb e)) with
@@ -355,13 +365,13 @@ Definition estep (fuel : nat) (eid : nat) (o : op) (e : engine) (h : store) : en
       (mkeng [] (natom e) (mkdb [] builtin_ctx (reserved (edb e))) (cursors e) (nstart e), h, otag "ok" [])
   | OStart q nm args =>
       let h1 := match aget Nat.eqb q (cursors e) with Some c => snd (cclose h c) | None => h end in
-      let c := cstart (ctag eid (nstart e)) nm (map u args) in
+      let c := cstart (nstart e) nm (map u args) in
       (bump (with_cursors e (aset Nat.eqb q c (cursors e))), h1, otag "started" [])
   | ONext q =>
       match aget Nat.eqb q (cursors e) with
       | None => (e, h, otag "noslot" [])
       | Some c =>
-          let '(c', h', r, names) := cnext fuel (edb e) h c in
+          let '(c', h', r, names) := cnext fuel (edb e) (ccell n eid (cown c)) h c in
           (with_atoms (with_cursors e (aset Nat.eqb q c' (cursors e))) (intern_all names (atoms e, natom e)),
            h', res_obs r)
       end
@@ -376,21 +386,21 @@ Definition estep (fuel : nat) (eid : nat) (o : op) (e : engine) (h : store) : en
       match aget Nat.eqb q (cursors e) with
       | None => (e, h, otag "noslot" [])
       | Some c =>
-          let '(c', h', answers, err, names) := cdrain fuel fuel (edb e) h c [] [] in
+          let '(c', h', answers, err, names) := cdrain fuel fuel (edb e) (ccell n eid (cown c)) h c [] [] in
           (with_atoms (with_cursors e (aset Nat.eqb q c' (cursors e))) (intern_all names (atoms e, natom e)),
            h', otag "all" [OL (map (fun vals => OL (map term_obs vals)) answers); oopt onat err])
       end
   end.
 
 (* ---------------------------------------------------------------- the world *)
-Record world := mkworld { engs : list (nat * engine); heap : store }.
+Record world := mkworld { wn : nat; engs : list (nat * engine); heap : store }.
 
 Definition wstep (fuel : nat) (w : world) (s : nat * op) : world * obs :=
   match aget Nat.eqb (fst s) (engs w) with
   | None => (w, otag "noengine" [])
   | Some e =>
-      let '(e', h', o) := estep fuel (fst s) (snd s) e (heap w) in
-      (mkworld (aset Nat.eqb (fst s) e' (engs w)) h', o)
+      let '(e', h', o) := estep fuel (wn w) (fst s) (snd s) e (heap w) in
+      (mkworld (wn w) (aset Nat.eqb (fst s) e' (engs w)) h', o)
   end.
 
 (* a schedule is a list of (engine id, operation); the trace keeps who observed what *)
@@ -403,7 +413,7 @@ Fixpoint wrun (fuel : nat) (w : world) (sched : list (nat * op)) : world * list 
       (w2, (fst s, o) :: tr)
   end.
 
-Definition init_world (n : nat) : world := mkworld (map (fun i => (i, init_engine)) (seq 0 n)) [].
+Definition init_world (n : nat) : world := mkworld n (map (fun i => (i, init_engine)) (seq 0 n)) [].
 
 (* what engine i saw *)
 Definition proj (i : nat) (tr : list (nat * obs)) : list obs :=
